@@ -106,10 +106,19 @@ def parse_terse(text, harnesses):
     return res
 
 
+def target_dir(pid):
+    """one Kani target dir per property (checks may run concurrently); seeded from the shared k0 build if present"""
+    tdir = os.path.join(BUILD, "k-" + pid)
+    base = os.path.join(BUILD, "k0")
+    if not os.path.exists(tdir) and os.path.exists(base):
+        subprocess.call(["cp", "-a", base, tdir])
+    return tdir
+
+
 def run_harnesses(harnesses, jobs, per_harness_timeout, tag):
     """Run the given harness names. Returns (results, log_path, wall)."""
     _prep()
-    tdir = os.path.join(BUILD, "k0")
+    tdir = target_dir(tag.split("-")[0])
     log = os.path.join(BUILD, "kani-%s.log" % tag)
     cmd = ["cargo", "kani", "-Z", "stubbing", "-Z", "unstable-options",
            "--harness-timeout", "%ds" % per_harness_timeout,
@@ -142,8 +151,8 @@ def playback(harness, timeout, tag):
     """Re-run one harness with concrete playback (regular format).
     -> list of {kind: 'assertion'|'cover'|..., label, vals:[[bytes]]}, details {check name -> (status, desc)}"""
     _prep()
-    tdir = os.path.join(BUILD, "k0")
-    log = os.path.join(BUILD, "kani-pb-%s-%s.log" % (tag, harness))
+    tdir = target_dir(tag.split("-")[0])
+    log = os.path.join(BUILD, "kani-pb-%s-%s.log" % (tag, harness.split("::")[-1]))
     cmd = ["cargo", "kani", "-Z", "stubbing", "-Z", "concrete-playback", "--concrete-playback=print",
            "--target-dir", tdir, "--exact", "--harness", harness]
     rc, to, wall = _run(cmd, log, timeout)
@@ -153,7 +162,7 @@ def playback(harness, timeout, tag):
     checks = []
     for m in re.finditer(r"^Check \d+: (\S+)\n\t - Status: (\w+)\n\t - Description: \"(.*)\"\n(?:\t - Location: (.*)\n)?", text, re.M):
         checks.append({"name": m.group(1), "status": m.group(2), "desc": m.group(3), "loc": m.group(4) or ""})
-    for blk in re.finditer(r"/// Check for `(\w+)`: \"(.*)\"\n(.*?)kani::concrete_playback_run", text, re.S):
+    for blk in re.finditer(r"/// Check for `(\w+)`: \"([^\"\n]*)\"\n(.*?)kani::concrete_playback_run", text, re.S):
         kind, label, body = blk.group(1), blk.group(2), blk.group(3)
         vals = []
         for l in body.splitlines():
@@ -196,5 +205,11 @@ def native_replay(harness, vals, profile):
     if last.startswith("REPRODUCED label="):
         return {"outcome": "REPRODUCED", "label": last.split("=", 1)[1]}
     if last.startswith("PANIC"):
-        return {"outcome": "PANIC", "msg": last[len("PANIC msg="):]}
+        m = re.match(r"^PANIC loc=(\S*) msg=(.*)$", last)
+        loc = m.group(1) if m else ""
+        msg = m.group(2) if m else last
+        if loc.startswith("src/") or "/verif/harness/" in loc:
+            # the panic was raised by harness/oracle code, not by the library: a harness bug, never a finding
+            return {"outcome": "HARNESS_PANIC", "loc": loc, "msg": msg}
+        return {"outcome": "PANIC", "loc": loc, "msg": msg}
     return {"outcome": "NOT_REPRODUCED", "detail": last}
